@@ -253,7 +253,8 @@ type tlSys struct {
 	l             *TokenLimiter
 	rate          int
 	burst         int
-	redisB        bucket // the bucket kept in Redis
+	skew          time.Duration // the caller's clock relative to the process clock (the limiter must count on the caller's)
+	redisB        bucket        // the bucket kept in Redis
 	rescueB       bucket // the in-process bucket
 	up            bool
 	rescueMode    bool // the limiter believes Redis is down
@@ -264,8 +265,9 @@ type tlSys struct {
 }
 
 func (s *tlSys) allow(n int) {
-	now := float64(vrt.Now().Unix())
-	nowFrac := float64(vrt.Now().UnixNano()) / 1e9 // the in-process bucket refills continuously
+	callerNow := vrt.Now().Add(s.skew)
+	now := float64(callerNow.Unix())
+	nowFrac := float64(callerNow.UnixNano()) / 1e9 // the in-process bucket refills continuously
 	var want bool
 	usedRescue := false
 	switch {
@@ -279,7 +281,7 @@ func (s *tlSys) allow(n int) {
 		want = s.redisB.take(now, n, s.rate, s.burst)
 	}
 	before := s.s.CommandCount()
-	got := s.l.AllowN(vrt.Now(), n)
+	got := s.l.AllowN(callerNow, n)
 	hitRedis := s.s.CommandCount() > before
 	if got != want {
 		s.r.Failf("AllowN(n=%d) at unix %v: granted=%v, reference bucket says %v (rate %d burst %d, redis up=%v, in-process mode=%v)", n, now, got, want, s.rate, s.burst, s.up, usedRescue)
@@ -382,8 +384,11 @@ func (s *tlSys) canon() string {
 func TestVerifTokenLimit(t *testing.T) {
 	defer vrt.WriteReport()
 	limSetup()
-	type cfg struct{ rate, burst int }
-	cfgs := []cfg{{1, 1}, {1, 2}, {2, 2}, {2, 3}, {3, 5}, {4, 2}}
+	type cfg struct {
+		rate, burst int
+		skew        time.Duration
+	}
+	cfgs := []cfg{{1, 1, 0}, {1, 2, 0}, {2, 2, 0}, {2, 3, 0}, {3, 5, 0}, {4, 2, 0}, {1, 2, -time.Hour}, {2, 3, time.Hour}, {3, 5, -time.Hour}}
 	var mine []cfg
 	for i, c := range cfgs {
 		if vrt.Shard(i + 12) {
@@ -398,10 +403,10 @@ func TestVerifTokenLimit(t *testing.T) {
 		}
 		ttl := c.burst * 2 / c.rate
 		ops := []string{"allow:1", "allow:2", fmt.Sprintf("allow:%d", c.burst), fmt.Sprintf("allow:%d", c.burst+1), "t0", "t1", "t2", fmt.Sprintf("t%d", ttl), fmt.Sprintf("t%d", ttl+1), "down", "up", "monitor"}
-		vrt.BFS(vrt.Options{Name: fmt.Sprintf("tokenlimit/rate=%d/burst=%d", c.rate, c.burst), Budget: vrt.FairBudget(len(mine) - i)}, depth, ops, func(r *vrt.Run, hist []string) vrt.Step {
+		vrt.BFS(vrt.Options{Name: fmt.Sprintf("tokenlimit/rate=%d/burst=%d/callerclock=%+v", c.rate, c.burst, c.skew), Budget: vrt.FairBudget(len(mine) - i)}, depth, ops, func(r *vrt.Run, hist []string) vrt.Step {
 			// the per-address breaker must never shed calls here (C01/C12 cover it)
 			vrt.SetRandHook(func() (int64, bool) { return vrt.FloatDraw(1 - 1.0/(1<<53)), true })
-			s := &tlSys{r: r, s: freshServer(r), rate: c.rate, burst: c.burst, up: true}
+			s := &tlSys{r: r, s: freshServer(r), rate: c.rate, burst: c.burst, skew: c.skew, up: true}
 			r.Cleanup(func() {
 				s.s.SetError("")
 			})
